@@ -39,7 +39,7 @@ Abs(x)     == IF x < 0 THEN -x ELSE x                       \* x # MinInt
 PDiv(a, b) == IF a >= 0 THEN a \div b ELSE -((-a) \div b)   \* Pascal div (b > 0, a # MinInt)
 
 DevNames == {"MultiplyAcceptsMinInt", "ClampSignFromUnit", "GlueAdvanceMaxOrder",
-             "InternalDimenUnchecked", "FilCarryUnchecked"}
+             "InternalDimenUnchecked", "FilCarryUnchecked", "BlankEndsFil"}
 
 -----------------------------------------------------------------------------
 (* 102 round_decimals: digits .d1 d2 ... dk (k <= 17)  ->  scaled fraction *)
@@ -269,9 +269,15 @@ Found(p, v, cv, f, neg, e, dev) ==
                        AttachSign(0, TRUE, ~neg, p, e, 0)
              ELSE AttachSign(m.v, m.err, neg, p, e, 0)
 
-RECURSIVE CountL(_, _, _)
-CountL(t, p, n) == LET k == ScanKw(t, p, KwL)
-                   IN IF k.ok THEN CountL(t, k.p, n + 1) ELSE [n |-> n, p |-> k.p]
+\* 454: every further l is read with scan_keyword("l"), which passes over blanks.  Deviation (known finding
+\* C06/blank-ends-fil, pinned by the repository's test advance_glue_3): dimen.rs reads the l's as bare letters, a
+\* blank ends the unit and stays for the optional-space scan.
+RECURSIVE CountL(_, _, _, _)
+CountL(t, p, n, dev) ==
+  IF "BlankEndsFil" \in dev
+  THEN IF KwAt(t, p, KwL) THEN CountL(t, p + 1, n + 1, dev) ELSE [n |-> n, p |-> p]
+  ELSE LET k == ScanKw(t, p, KwL)
+       IN IF k.ok THEN CountL(t, k.p, n + 1, dev) ELSE [n |-> n, p |-> k.p]
 
 RECURSIVE FindUnit(_, _, _)
 FindUnit(t, p, i) == IF i > Len(Units) THEN [i |-> 0, p |-> p]
@@ -283,7 +289,7 @@ DimenUnits(t, p, R, F, inf, dev, cv, f, neg, e) ==
   LET fil == IF inf THEN ScanKw(t, p, KwFil) ELSE [ok |-> FALSE, p |-> p]
   IN IF fil.ok
      THEN \* 454
-          LET ls == CountL(t, fil.p, 0)
+          LET ls == CountL(t, fil.p, 0, dev)
               ee == e + (IF ls.n > 2 THEN ls.n - 2 ELSE 0)              \* "Illegal unit ... filll"
               oo == IF ls.n >= 2 THEN 3 ELSE 1 + ls.n
           IN IF "FilCarryUnchecked" \in dev /\ cv < 16384 /\ cv * Unity + f >= 1073741824
